@@ -17,7 +17,10 @@ constructor live in pyvc/th_tables2.py.  Functions under contract (real source, 
   dictable.__init__      with _data_columns_as_dict, _value, as_list inlined: from a dict of equally long lists, from keyword columns, from ([], column names),
                          from a list of records (dict_concat by contract), from nothing; from a list of n row tuples of length m and m distinct column names
                          (a list of names, or the keys() of a dict; zipper by contract): exactly the named columns, column p lists row[i][p], i = 0..n-1,
-                         for n == 0 the named columns, all empty (pyvc/th_tables3.py)
+                         for n == 0 the named columns, all empty (pyvc/th_tables3.py); from one record whose cells are None, python lists or scalars
+                         (what concat does to every record, hence unlist to every row; as_list and lens by contract): ValueError iff two list cells have
+                         different lengths other than 1, else the keys as columns, all of one length, a cell of that length as it is and a scalar /
+                         None / one-element list repeated - the broadcast on construction
   dict_concat            whole body: no record, one record, records with one key set (sorted items / transpose / zip), several key sets (union, d.get)
   dictattr.__delitem__, dictable.__delattr__, dictattr.__sub__   the named column goes, the others are untouched, the table stays rectangular
   dictable.__add__ / concat for two tables   union of the columns, rows of the left operand then of the right one, in order, None for a column an operand lacks
@@ -26,7 +29,7 @@ Callee contracts: lens, zipper, as_list on lists (proved in C19); __setitem__ in
 selection forms and concat (proved here, section named in each use text).  The sections constructor.rows and __getitem__.ints are grounded lazily: an
 obligation z3 discharges as it stands is kept, one it does not (a failing one, on a changed tree) is grounded so that it comes back `sat` with a model.
 Outside the rows + headers contract (its preconditions): rows of unequal length, a name count other than the row length, repeated names.
-Still bounded only (rac/C01.py): scalar / length-1 broadcast on construction, DataFrame / path inputs, relabel, do, derived columns, concat of more than two tables, and the induction over whole operation histories (each proved operation keeps wf and agrees with the
+Still bounded only (rac/C01.py): broadcast on construction for tuple / range / dict-view cells and for keyword columns, DataFrame / path inputs, relabel, do, derived columns, concat of more than two tables, and the induction over whole operation histories (each proved operation keeps wf and agrees with the
 list-of-records model clause by clause; chaining them is an argument, not a solver step).
 """
 import ast
@@ -42,7 +45,9 @@ from pyvc.sv import SV, I, B, S, T, NONE, fresh_name, fresh_int
 from pyvc.th_tables2 import (Rows, Init, Concat, Concats, Slices, Deletes, Names, Updates, NK, SK, SP, name_list, named, PySlice, SLEN, SIDX, slice_axiom, CNT, cnt_def, count_lemmas, fresh_rowlist, rows_of, mask_list, rowmap, fresh_colmap, as_table, CLS,
                               equally_long, same_columns, records_contract, empty_with_columns_contract, mask_contract, MASK_CLAUSES)
 from pyvc.th_lists import INT
-from pyvc.th_tables3 import RowsHeaders, fresh_rows, rows_of_width, keyseq, distinct_names, rows_headers_contract, ROWS_CLAUSES
+from pyvc.th_tables3 import (RowsHeaders, fresh_rows, rows_of_width, keyseq, distinct_names, rows_headers_contract, ROWS_CLAUSES, RecordCells, cell_axioms, record_clash,
+                              record_contract, RECORD_CLAUSES, ISL)
+from pyvc.th_tables2 import VLEN
 
 PROP = 'C01'
 REPLAY_MODULE = 'rac.C01_ded'
@@ -600,6 +605,48 @@ def rows_constructor_obligations(ctx, m):
         ctx.cover('constructor.rows.%s.no_row_reachable' % label, pre + [rows.t == 0, W == 2])
 
 
+def record_constructor_obligations(ctx, m):
+    """dictable(one record) - a Dict / dict whose cells are None, python lists or scalars (what concat makes of every record it is given, so what unlist
+    does to every row): dictable.__init__ with _data_columns_as_dict and _value inlined, as_list (C19) and lens (C19) by contract.  Two list cells whose
+    lengths differ and are both other than 1 raise ValueError; otherwise the table has the keys of the record as columns, all of one length (that of a
+    cell not of length 1 if there is one, else 1), a cell of that length is stored as it is and a scalar / None / one-element list is repeated:
+    the broadcast on construction."""
+    fdef = m.func('dictable.__init__')
+    inline = _inline(m)
+    inline['_data_columns_as_dict'] = (m, m.func('_data_columns_as_dict'))
+    n0 = len(ctx.obligations)
+    rec = rowmap(z3.Array('REC_dom', Key, z3.BoolSort()), z3.Array('REC_val', Key, Val))
+    ex = Exec(m, [RecordCells(), Init(), Rows(), Dictable(m), Tables(), Lists(), TypePreds(extra={'is_arr': ()}), ConcreteStr(m)], inline=inline, name='constructor.record')
+    for f in cell_axioms():
+        ex.fact(f)
+    st = State()
+    outs = ex.run_function(st, 'dictable.__init__', [_new_table(), rec, NONE], {})
+    ctx.absorb(ex)
+    ctx.record_function(m, 'dictable.__init__', fdef, ex.stmts_executed)
+    ctx.record_function(m, '_data_columns_as_dict', inline['_data_columns_as_dict'][1], ex.stmts_executed)
+    ctx.record_function(m, '_value', inline['_value'][1], ex.stmts_executed, excluded=['tuple, range and dict view values: path precondition of the record sections'])
+    clash = record_clash(rec)
+    nret = nraise = 0
+    for out in outs:
+        hy = ex.facts + out.st.pc
+        if out.kind != 'return':
+            nraise += 1
+            ctx.post('constructor.record.raises_only_ValueError_and_only_for_list_cells_of_different_lengths', hy, And(BoolVal(out.val == 'ValueError'), clash), kind='safety')
+            continue
+        nret += 1
+        ctx.post('constructor.record.returns_only_when_the_list_cells_have_one_length', hy, Not(clash))
+        for cname, goal in zip(RECORD_CLAUSES, record_contract(rec, out.st.env['self'])):
+            ctx.post('constructor.record.' + cname, hy, goal)
+    ground_section(ctx, n0, rounds=3, lazy=True)
+    _post_all(ctx, n0, 'record')
+    if nret == 0 or nraise == 0:
+        raise OutOfSubset('constructor (one record): expected a returning and a raising path')
+    ka, kb = key_of('a'), key_of('b')
+    va, vb = Select(rec.vals, ka), Select(rec.vals, kb)
+    ctx.cover('constructor.record.broadcast_reachable', cell_axioms() + [Select(rec.dom, ka), Select(rec.dom, kb), ISL(va), VLEN(va) == 3, Not(ISL(vb)), vb != NONEV])
+    ctx.cover('constructor.record.clash_reachable', cell_axioms() + [Select(rec.dom, ka), Select(rec.dom, kb), ISL(va), VLEN(va) == 3, ISL(vb), VLEN(vb) == 2, va != NONEV, vb != NONEV])
+
+
 # ====================================================================================================== __getitem__(list of ints)
 def ints_obligations(ctx, m):
     """d[[i_0, ..., i_k-1]] (k >= 1 integers; [] is the empty-list branch of the mask section): `values = list(zip(*self.values()))` - the list of the
@@ -644,10 +691,10 @@ def ints_obligations(ctx, m):
         ctx.post('__getitem__.ints.row_j_is_row_item_j_of_the_receiver', hy,
                  ForAll([c, j], Implies(And(t.dom[c], 0 <= j, j < L), o.carr[c][j] == t.carr[c][row_of(iarr[j])])))
         ctx.post('__getitem__.ints.receiver_unchanged', hy, same_table(out.st.env['self'], t))
-    if nret == 0 or nraise == 0:
-        raise OutOfSubset('integer-list selection: expected a returning and a raising path')
     ground_section(ctx, n0, rounds=3, lazy=True)
     _post_all(ctx, n0, 'getitem_ints')
+    if nret == 0 or nraise == 0:
+        raise OutOfSubset('integer-list selection: expected a returning and a raising path')
     ka = key_of('a')
     ctx.cover('__getitem__.ints.pre', pre + [n == 3, t.dom[ka], L == 2, iarr[0] == 2, iarr[1] == -1])
     ctx.cover('__getitem__.ints.out_of_range_reachable', pre + [n == 3, t.dom[ka], L == 1, iarr[0] == 3])
@@ -824,6 +871,7 @@ def build(ctx):
     ctx.guarded('__add__', lambda: concat_obligations(ctx, m))
     ctx.guarded('constructor', lambda: constructor_obligations(ctx, m))
     ctx.guarded('constructor.rows', lambda: rows_constructor_obligations(ctx, m))
+    ctx.guarded('constructor.record', lambda: record_constructor_obligations(ctx, m))
     ctx.guarded('__getitem__.ints', lambda: ints_obligations(ctx, m))
     ctx.guarded('dict_concat', lambda: dict_concat_obligations(ctx, m))
     ctx.trust('the induction over operation histories (every proved operation keeps wf and its model clause; chaining is an argument) and the operations listed as bounded only in the module docstring')
